@@ -1145,3 +1145,38 @@ CHECKS["C15"]["note"] = (
     'Scalar variables only. An exception raised by generate() (before simplification) is not judged; expand_mx is '
     'switched on together with eliminable_variable_expression because pymoca refuses that combination by design.'
 )
+
+CHECKS["C12"]["text"] += (
+    " Loops that visit a whole vector in a non-identity order (array size = number of iterations, subscript n+1-i) are included in "
+    "both tiers; between generating the 8 settings of a model and reading their functions another (decoy) model is compiled with "
+    "expand_mx and evaluated, as a caller compiling a batch of models would do, so that state kept outside the model object shows."
+)
+CHECKS["C25"]["text"] += (
+    " The literal alphabet contains 0 / 1 / 0.0 / 1.0 next to true / false (values that compare equal across Python types)."
+)
+
+CHECKS["C13"]["technique"] = (
+    'exhaustive enumeration of (variable kind x attribute x expression form) singles and pairs, and of all short '
+    'event histories (read function / read variables / simplify(option)) on one Model object, against reference '
+    'attribute values'
+)
+
+CHECKS["C13"]["text"] = (
+    'append to the existing text "Histories: on 35 (thorough 55) models whose attributes depend on parameters with '
+    'values, a free parameter and an expression parameter (plus a constant and an alias pair declared before the '
+    'variable), every sequence of at most 3 (thorough 4) events from {read variable_metadata_function, read every '
+    'Variable attribute, simplify(o)} -- o each of resolve_parameter_values, replace_parameter_expressions, '
+    'replace_constant_expressions, replace_parameter_values, replace_constant_values, expand_vectors, '
+    'detect_aliases that can change the model by the reference (thorough also replace_parameter_expressions + '
+    'replace_parameter_values in one call) -- is applied to one Model object (14 079 / 259 195 histories); at every '
+    'read and after the last event the variable lists, python types, every attribute of every listed Variable and '
+    'every block of the metadata function (arity, shape, values at 3 parameter points, with the parameters the '
+    'model has then) are compared with a reference state machine of what each option inlines / removes."'
+)
+
+CHECKS["C13"]["note"] = (
+    'Finite parameter grid; array attributes whose *elements* depend on parameters are outside the alphabet. '
+    'Histories: a simplify() call that raises ends that history without a verdict (counted); attributes do not '
+    'mention constants; the aliased pair has default attributes (no alias-merge rule assumed); '
+    'eliminate_constant_assignments and eliminable_variable_expression are not among the events.'
+)
